@@ -29,8 +29,9 @@ Definition observe (T : N) (c : coord) : cobs :=
 (* what a restart shows:
      stats of recover_from_wal, the pending table right after it,
      instance A: for every transaction id the reply of its natural completion call
-                 (Prepared -> commit, Committing -> complete_commit, Aborting -> complete_abort,
-                  not pending -> commit then abort), then the pending table again,
+                 (Prepared -> commit, Committing -> complete_commit, Aborting -> commit (must be
+                  refused) then complete_abort, not pending -> commit then abort), then the pending
+                 table again,
      instance B: the clock moved 6 s ahead, cleanup_timeouts(): the timed-out ids (sorted) *)
 Definition robs := (list N * cobs * list (list N) * cobs * list N)%type.
 Definition robs_eqb (a b : robs) : bool :=
@@ -55,6 +56,10 @@ Definition reached_prepared (es : list tentry) (tx : N) : bool :=
   existsb (fun e => match e with TPhase t _ to => N.eqb t tx && N.eqb to PREPARED | _ => false end) es.
 Definition left_preparing (es : list tentry) (tx : N) : bool :=
   existsb (fun e => match e with TPhase t _ _ => N.eqb t tx | _ => false end) es.
+
+(* the last decision the surviving records hold for tx: the target of its last phase change *)
+Definition last_phase (es : list tentry) (tx : N) : option N :=
+  fold_left (fun acc e => match e with TPhase t _ to => if N.eqb t tx then Some to else acc | _ => acc end) es None.
 
 (* the votes the live coordinator held when it declared the transaction Prepared: taken from
    the implementation's own live observations *)
@@ -95,23 +100,33 @@ Definition oracle_tx (steps : list xstep) (outs : list step_out) (lives : list c
     (match here with None => true | Some _ => false end)
     && (match probe with [1; _; 1; _] => true | _ => false end)   (* commit -> Err, abort -> Err *)
     && negb (existsb (N.eqb tx) touts)
-  else if reached_prepared es tx then
-    (* all votes were in, no outcome: it comes back with those votes and can be completed *)
+  else match last_phase es tx with
+  | Some lp =>
+    (* a decision was logged (all votes in -> Prepared, commit begun -> Committing, abort begun ->
+       Aborting) but no outcome: the transaction comes back in exactly that phase -- a logged
+       decision is not forgotten and not replaced by an earlier one --, with the votes the live
+       coordinator held when it was declared Prepared, and can be driven to completion in the
+       direction decided: Prepared -> commit Ok, Committing -> complete_commit Ok, Aborting ->
+       commit refused, complete_abort Ok; afterwards it is gone *)
     match here with
     | Some (ph, vs) =>
-        ((ph =? PREPARED) || (ph =? COMMITTING) || (ph =? ABORTING))
-        && (match live_votes_at_prepared steps outs lives tx with
-            | Some lv => list_eqb (option_eqb vote_eqb) vs lv
-            | None => true
-            end)
-        && is_ok probe
+        (ph =? lp)
+        && (if reached_prepared es tx then
+              match live_votes_at_prepared steps outs lives tx with
+              | Some lv => list_eqb (option_eqb vote_eqb) vs lv
+              | None => true
+              end
+            else true)
+        && (if lp =? ABORTING then list_eqb N.eqb probe [1; 2; 0] else is_ok probe)
         && (match nth (N.to_nat tx) o1 None with None => true | Some _ => false end)
     | None => false
     end
-  else if has_begin es tx && negb (left_preparing es tx) then
-    (* still collecting votes: forgotten *)
-    match here with None => true | Some _ => false end
-  else true.
+  | None =>
+    if has_begin es tx then
+      (* still collecting votes: forgotten *)
+      match here with None => true | Some _ => false end
+    else true
+  end.
 
 Definition oracle_at (T : N) (steps : list xstep) (outs : list step_out) (lives : list cobs)
     (recs : list (N * tentry)) (k : N) (ro : option robs) : bool :=
@@ -134,8 +149,30 @@ Definition gens_case := (tab * N * list gen_rec)%type.
 Definition range (a z step : N) : list N :=
   map (fun i => a + i * step) (N_seq (N.succ ((z - a) / (N.max 1 step)))).
 
+(* the live part: (a) the timeout sweep is a decision like any other -- every id cleanup_timeouts()
+   reports (its abort is queued for broadcast, its locks are released) has its TxComplete{Aborted}
+   in the log by the time the call returns; (b) no commit / abort / complete_* call succeeds on a
+   transaction whose outcome was already in the log when the call was made (restored or not) *)
+Fixpoint live_oracle (recs : list (N * tentry)) (prev : N) (steps : list xstep) (outs : list step_out)
+    (ends : list N) : bool :=
+  match steps, outs, ends with
+  | s :: ss, o :: os, e :: es' =>
+      (match s with
+       | XS (Timeouts _ _) =>
+           match o with
+           | 3 :: ids => forallb (fun id => has_complete (surviving recs e) id false) ids
+           | _ => true
+           end
+       | XS (Commit t _) | XS (Abort t) | XS (CompleteCommit t) | XS (CompleteAbort t) =>
+           if is_ok o then negb (has_any_complete (surviving recs prev) t) else true
+       | _ => true
+       end) && live_oracle recs e ss os es'
+  | _, _, _ => true
+  end.
+
 Definition gen_oracle (T : N) (g : gen_rec) : bool :=
   let '(now0, steps, outs, lives, ends, base, fbytes, recs, crashes, chosen) := g in
+  live_oracle recs base steps outs ends &&
   forallb (fun r => let '(a, z, stp, ro) := r in
                     forallb (fun k => oracle_at T steps outs lives recs k ro) (range a z stp)) crashes.
 
@@ -164,6 +201,9 @@ Fixpoint run_obs (d : dcoord) (steps : list xstep) : dcoord * list step_out * li
       (d2, out :: outs, observe T (co d1) :: os, N.of_nat (length (file d1)) :: es)
   end.
 
+Definition timed_out_ids (now : N) (c : coord) : list N :=
+  map fst (filter (fun p => timeout (snd p) <? now - started (snd p)) (pending c)).
+
 (* instance A: natural completion of every transaction id, in order *)
 Fixpoint probe_a (now : N) (c : coord) (txs : list N) : coord * list (list N) :=
   match txs with
@@ -175,7 +215,8 @@ Fixpoint probe_a (now : N) (c : coord) (txs : list N) : coord * list (list N) :=
         | Some tr =>
             if phase tr =? PREPARED then let '(c', _, o) := call (Commit tx (yes_handles tr)) in (c', o)
             else if phase tr =? COMMITTING then let '(c', _, o) := call (CompleteCommit tx) in (c', o)
-            else let '(c', _, o) := call (CompleteAbort tx) in (c', o)
+            else let '(c', _, o1) := call (Commit tx (yes_handles tr)) in
+                 let '(c'', _, o2) := step now c' (CompleteAbort tx) in (c'', o1 ++ o2)
         | None =>
             let '(c', _, o1) := call (Commit tx []) in
             let '(c'', _, o2) := step now c' (Abort tx) in (c'', o1 ++ o2)
@@ -188,7 +229,7 @@ Definition rec_obs (now : N) (f : list byte) (k : N) : option robs :=
   | Some (d, stats) =>
       let o0 := observe T (co d) in
       let '(ca, probes) := probe_a now (co d) (N_seq T) in
-      let '(_, _, touts) := step (now + 6000) (co d) (Timeouts (now + 6000)) in
+      let '(_, _, touts) := step (now + 6000) (co d) (Timeouts (now + 6000) (timed_out_ids (now + 6000) (co d))) in
       Some (stats, o0, probes, observe T ca, tl touts)
   | None => None
   end.
